@@ -5,6 +5,8 @@ func controls() map[string]string {
 		"modeling/primitives/zz_verif_control_c18.go": `package primitives
 
 import (
+	"math"
+
 	"github.com/EliCDavis/polyform/modeling"
 	"github.com/EliCDavis/vector/vector3"
 )
@@ -82,6 +84,203 @@ func (c Cube) verifControlClosedGoodPermuted() modeling.Mesh {
 		modeling.PositionAttribute: verts,
 		modeling.NormalAttribute:   vector3.Array[float64](verts).Normalized(),
 	})
+}
+
+// ---- parametrised solids
+
+// must fire (SEAM): the quad strip takes i+1 without wrap-around
+func verifControlSeamBadOpen(radius float64, rows, columns int) modeling.Mesh {
+	positions := make([]vector3.Float64, 0)
+	for i := 0; i < rows; i++ {
+		for j := 0; j < columns; j++ {
+			a := 2.0 * math.Pi * float64(j) / float64(columns)
+			positions = append(positions, vector3.New(math.Cos(a)*radius, float64(i), math.Sin(a)*radius))
+		}
+	}
+	tris := make([]int, 0)
+	for j := 0; j < rows-1; j++ {
+		for i := 0; i < columns; i++ {
+			a, b := j*columns+i, j*columns+i+1
+			c, d := (j+1)*columns+i+1, (j+1)*columns+i
+			tris = append(tris, a, b, c, a, c, d)
+		}
+	}
+	return modeling.NewTriangleMesh(tris).SetFloat3Data(map[string][]vector3.Float64{modeling.PositionAttribute: positions})
+}
+
+// must fire (SEAM): the ring has columns vertices, the strip walks it with modulus columns-1
+func verifControlSeamBadModulus(radius float64, rows, columns int) modeling.Mesh {
+	positions := make([]vector3.Float64, 0)
+	for i := 0; i < rows; i++ {
+		for j := 0; j < columns; j++ {
+			a := 2.0 * math.Pi * float64(j) / float64(columns)
+			positions = append(positions, vector3.New(math.Cos(a)*radius, float64(i), math.Sin(a)*radius))
+		}
+	}
+	tris := make([]int, 0)
+	for j := 0; j < rows-1; j++ {
+		for i := 0; i < columns-1; i++ {
+			n := (i + 1) % (columns - 1)
+			tris = append(tris, j*columns+i, j*columns+n, (j+1)*columns+n)
+			tris = append(tris, j*columns+i, (j+1)*columns+n, (j+1)*columns+i)
+		}
+	}
+	return modeling.NewTriangleMesh(tris).SetFloat3Data(map[string][]vector3.Float64{modeling.PositionAttribute: positions})
+}
+
+// must stay silent (SEAM): wrap by an if, two appends per quad, bases hoisted
+func verifControlSeamGoodIfWrap(radius float64, rows, columns int) modeling.Mesh {
+	var positions []vector3.Float64
+	for i := 0; i < rows; i++ {
+		for j := 0; j < columns; j++ {
+			a := 2.0 * math.Pi * float64(j) / float64(columns)
+			positions = append(positions, vector3.New(math.Cos(a)*radius, float64(i), math.Sin(a)*radius))
+		}
+	}
+	var tris []int
+	for j := 0; j+1 < rows; j++ {
+		lower, upper := j*columns, (j+1)*columns
+		for i := 0; i < columns; i++ {
+			n := i + 1
+			if n == columns {
+				n = 0
+			}
+			tris = append(tris, lower+i, lower+n, upper+n)
+			tris = append(tris, lower+i, upper+n, upper+i)
+		}
+	}
+	return modeling.NewTriangleMesh(tris).SetFloat3Data(map[string][]vector3.Float64{modeling.PositionAttribute: positions})
+}
+
+// must fire (NORMAL-RADIAL): the sphere is built around (0, radius, 0), the normals are still normalised positions
+func verifControlRadialBadOffCentre(radius float64, rows, columns int) modeling.Mesh {
+	positions := make([]vector3.Float64, 0)
+	for i := 0; i < rows; i++ {
+		phi := math.Pi * float64(i+1) / float64(rows+1)
+		for j := 0; j < columns; j++ {
+			theta := 2.0 * math.Pi * float64(j) / float64(columns)
+			positions = append(positions, vector3.New(math.Sin(phi)*math.Cos(theta)*radius, math.Cos(phi)*radius+radius, math.Sin(phi)*math.Sin(theta)*radius))
+		}
+	}
+	return modeling.NewTriangleMesh(nil).SetFloat3Data(map[string][]vector3.Float64{
+		modeling.PositionAttribute: positions,
+		modeling.NormalAttribute:   vector3.Array[float64](positions).Normalized(),
+	})
+}
+
+// must fire (NORMAL-RADIAL): normal i is the direction of vertex i+1
+func verifControlRadialBadShifted(radius float64, rows, columns int) modeling.Mesh {
+	positions := make([]vector3.Float64, 0)
+	for i := 0; i < rows; i++ {
+		phi := math.Pi * float64(i+1) / float64(rows+1)
+		for j := 0; j < columns; j++ {
+			theta := 2.0 * math.Pi * float64(j) / float64(columns)
+			positions = append(positions, vector3.New(math.Sin(phi)*math.Cos(theta), math.Cos(phi), math.Sin(phi)*math.Sin(theta)).Scale(radius))
+		}
+	}
+	normals := make([]vector3.Float64, len(positions))
+	for i := 0; i < len(positions)-1; i++ {
+		normals[i] = positions[i+1].Normalized()
+	}
+	return modeling.NewTriangleMesh(nil).SetFloat3Data(map[string][]vector3.Float64{
+		modeling.PositionAttribute: positions,
+		modeling.NormalAttribute:   normals,
+	})
+}
+
+// must stay silent (NORMAL-RADIAL): components scaled one by one, normals = positions / radius in an explicit loop
+func verifControlRadialGoodDivided(radius float64, rows, columns int) modeling.Mesh {
+	var positions []vector3.Float64
+	for i := 0; i < rows; i++ {
+		phi := math.Pi * float64(i+1) / float64(rows+1)
+		s, c := math.Sin(phi), math.Cos(phi)
+		for j := 0; j < columns; j++ {
+			theta := 2.0 * math.Pi * float64(j) / float64(columns)
+			positions = append(positions, vector3.New(radius*s*math.Cos(theta), radius*c, radius*math.Sin(theta)*s))
+		}
+	}
+	normals := make([]vector3.Float64, len(positions))
+	for i, p := range positions {
+		normals[i] = p.DivByConstant(radius)
+	}
+	return modeling.NewTriangleMesh(nil).SetFloat3Data(map[string][]vector3.Float64{
+		modeling.NormalAttribute:   normals,
+		modeling.PositionAttribute: positions,
+	})
+}
+
+// must fire (NORMAL-CYL): the rim normals tilt towards the other rim
+func (c Cylinder) verifControlCylBadTilt() modeling.Mesh {
+	vertices := make([]vector3.Float64, (c.Sides*2)+2)
+	normals := make([]vector3.Float64, (c.Sides*2)+2)
+	for k := 0; k <= c.Sides; k++ {
+		a := 2.0 * math.Pi * float64(k) / float64(c.Sides)
+		vertices[k*2] = vector3.New(math.Cos(a)*c.Radius, c.Height/2, math.Sin(a)*c.Radius)
+		vertices[k*2+1] = vector3.New(math.Cos(a)*c.Radius, -c.Height/2, math.Sin(a)*c.Radius)
+		normals[k*2] = vector3.New(math.Cos(a), -.1, math.Sin(a)).Normalized()
+		normals[k*2+1] = vector3.New(math.Cos(a), .1, math.Sin(a)).Normalized()
+	}
+	return modeling.NewTriangleMesh(nil).SetFloat3Data(map[string][]vector3.Float64{modeling.PositionAttribute: vertices, modeling.NormalAttribute: normals})
+}
+
+// must fire (NORMAL-CYL): the normal of the bottom rim is taken at the next angle
+func (c Cylinder) verifControlCylBadNextAngle() modeling.Mesh {
+	vertices := make([]vector3.Float64, (c.Sides*2)+2)
+	normals := make([]vector3.Float64, (c.Sides*2)+2)
+	step := 2.0 * math.Pi / float64(c.Sides)
+	for k := 0; k <= c.Sides; k++ {
+		a := step * float64(k)
+		vertices[k*2] = vector3.New(math.Cos(a)*c.Radius, c.Height/2, math.Sin(a)*c.Radius)
+		vertices[k*2+1] = vector3.New(math.Cos(a)*c.Radius, -c.Height/2, math.Sin(a)*c.Radius)
+		normals[k*2] = vector3.New(math.Cos(a), .1, math.Sin(a)).Normalized()
+		normals[k*2+1] = vector3.New(math.Cos(a+step), -.1, math.Sin(a+step)).Normalized()
+	}
+	return modeling.NewTriangleMesh(nil).SetFloat3Data(map[string][]vector3.Float64{modeling.PositionAttribute: vertices, modeling.NormalAttribute: normals})
+}
+
+// must stay silent (NORMAL-CYL): purely horizontal unit normals scaled by hand, normal written first
+func (c Cylinder) verifControlCylGoodHorizontal() modeling.Mesh {
+	n := 2 * (c.Sides + 1)
+	vertices := make([]vector3.Float64, n)
+	normals := make([]vector3.Float64, n)
+	for k := 0; k < c.Sides+1; k++ {
+		a := 2.0 * math.Pi * float64(k) / float64(c.Sides)
+		ca, sa := math.Cos(a), math.Sin(a)
+		normals[2*k+1] = vector3.New(ca*2, -.5, sa*2)
+		normals[2*k] = vector3.New(ca*2, .5, sa*2)
+		vertices[2*k] = vector3.New(c.Radius*ca, 0.5*c.Height, c.Radius*sa)
+		vertices[2*k+1] = vector3.New(c.Radius*ca, -0.5*c.Height, c.Radius*sa)
+	}
+	return modeling.NewTriangleMesh(nil).SetFloat3Data(map[string][]vector3.Float64{modeling.PositionAttribute: vertices, modeling.NormalAttribute: normals})
+}
+
+// must fire (CAP-NORMAL): the disk lies in the plane x = 0 but keeps the +y normal
+func (c Circle) verifControlCapBadPlane() modeling.Mesh {
+	vertices := make([]vector3.Float64, c.Sides+1)
+	normals := make([]vector3.Float64, c.Sides+1)
+	for k := 0; k < c.Sides; k++ {
+		a := 2.0 * math.Pi * float64(k) / float64(c.Sides)
+		vertices[k] = vector3.New(0, math.Cos(a)*c.Radius, math.Sin(a)*c.Radius)
+		normals[k] = vector3.New(0., 1., 0.)
+	}
+	vertices[c.Sides] = vector3.Zero[float64]()
+	normals[c.Sides] = vector3.New(0., 1., 0.)
+	return modeling.NewTriangleMesh(nil).SetFloat3Data(map[string][]vector3.Float64{modeling.PositionAttribute: vertices, modeling.NormalAttribute: normals})
+}
+
+// must stay silent (CAP-NORMAL): disk in the plane x = 0 with the matching normal
+func (c Circle) verifControlCapGoodSideways() modeling.Mesh {
+	vertices := make([]vector3.Float64, c.Sides+1)
+	normals := make([]vector3.Float64, c.Sides+1)
+	right := vector3.New(1., 0., 0.)
+	for k := 0; k < c.Sides; k++ {
+		a := 2.0 * math.Pi * float64(k) / float64(c.Sides)
+		normals[k] = right
+		vertices[k] = vector3.New(0, math.Cos(a)*c.Radius, math.Sin(a)*c.Radius)
+	}
+	vertices[c.Sides] = vector3.Zero[float64]()
+	normals[c.Sides] = right
+	return modeling.NewTriangleMesh(nil).SetFloat3Data(map[string][]vector3.Float64{modeling.PositionAttribute: vertices, modeling.NormalAttribute: normals})
 }
 `,
 	}
